@@ -38,9 +38,10 @@ FUNCS = [
     ("fix_field_path", "gapic/utils/uri_conv.py", "convert_uri_fieldnames._fix_field_path", []),
     ("field_header_disambiguated", "gapic/schema/wrappers.py", "FieldHeader.disambiguated", [("raw", "Str")]),
     ("routing_param_disambiguated_field", "gapic/schema/wrappers.py", "RoutingParameter.disambiguated_field", [("field", "Str")]),
+    ("client_method_name", "gapic/schema/wrappers.py", "Method.client_method_name", [("name", "Str"), ("is_internal", "Bool")]),
 ]
 
-TABLES = {"RESERVED_NAMES": "reservedNames"}       # module-level tables available as Pinned.<name> : List String
+TABLES = {"RESERVED_NAMES": "reservedNames", "kwlist": "pyKeywords"}       # module-level tables available as Pinned.<name> : List String
 
 TY = {"str": "Str", "int": "Int", "bool": "Bool"}
 LEAN_TY = {"Str": "Str", "Int": "Int", "Bool": "Bool", "ListStr": "List Str"}
